@@ -644,7 +644,9 @@ class WebSocketResponse(StreamResponse, Generic[_DecodeText]):
                 await self.close()
                 return WS_CLOSED_MESSAGE
             except WebSocketError as exc:
-                self._close_code = exc.code
+                # The reader has failed for good: close() must not wait for
+                # the peer's CLOSE by reading the failed queue again.
+                self._set_closing(exc.code)
                 await self.close(code=exc.code)
                 return WSMessageError(data=exc)
             except Exception as exc:
